@@ -158,8 +158,21 @@ def run_both(cases, tag, jobs=None, impl_env=None, need_model=True):
         rc, err = run_side([NVH, "run"], sp, ip, env=env)
         if rc != 0: errors.append(f"nvh chunk {ix} rc={rc}: {err[-400:]}")
         shutil.rmtree(env["NVH_DIR"], ignore_errors=True)
+        # annotated input lines ('@ …' right after an echo) replace the echo; the model reads the annotated script
+        raw = open(ip).read().split("\n"); fixed = []
+        for l in raw:
+            if l.startswith("@ ") and fixed and fixed[-1].startswith("> "):
+                fixed[-1] = "> " + l[2:]
+            else: fixed.append(l)
+        with open(ip, "w") as f: f.write("\n".join(fixed))
         if need_model:
-            rc, err = run_side([MODEL], sp, mp, stdin_file=True)
+            msp = sp + ".m"
+            with open(msp, "w") as f:
+                for l in fixed:
+                    if l.startswith("> "): f.write(l[2:] + "\n")
+                    elif l.startswith("#case"): f.write(l + "\n")
+            rc, err = run_side([MODEL], msp, mp, stdin_file=True)
+            os.remove(msp)
             if rc != 0: errors.append(f"nunmodel chunk {ix} rc={rc}: {err[-400:]}")
         ic = split_cases(open(ip).read())
         mc = split_cases(open(mp).read()) if need_model else [[] for _ in ic]
